@@ -107,6 +107,7 @@ SImplApply(S, op) ==
     [] op.op = "insertSelf"    -> SR(InsertPtr(S, op.pos, POwn(0), S.n), 0, <<>>)
     [] op.op = "insertSub"     -> SR(InsertPtr(S, op.pos, PExt(op.src, op.pos2), op.n), 0, <<>>)
     [] op.op = "insertSubSelf" -> SR(InsertPtr(S, op.pos, POwn(op.pos2), op.n), 0, <<>>)
+    [] op.op = "insertRangeSelf" -> SR(InsertPtr(S, op.pos, POwn(op.pos2), op.n), 0, <<>>)     \* insert(iterator, iterator, iterator): an own range is copied first as well (repair, see known findings)
     [] op.op = "insertN"       -> SR(InsertNStr(S, op.pos, op.n, op.ch), 0, <<>>)
     [] op.op = "insertIt"      -> SR(InsertNStr(S, op.pos, 1, op.ch), op.pos, <<>>)
     [] op.op = "erase"         -> SR(ErasePos(S, op.pos, op.n), 0, <<>>)
@@ -150,7 +151,7 @@ Invariants(S) ==
 RP_AppendNpos(S, op) == op.op \in {"appendSub", "appendSubSelf"} /\ op.n = Npos /\ ~DEmpty(S)
 RP_ResizeFill(S, op) == op.op = "resizeC" /\ op.n > S.n /\ ~DEmpty(S) /\ op.ch # 0
 RP_InsertSubSelf(S, op) ==                     \* the inputs on which the unrepaired in-place insertion read moved units
-  /\ op.op = "insertSubSelf" /\ ~DEmpty(S) /\ op.n > 0
+  /\ op.op \in {"insertSubSelf", "insertRangeSelf"} /\ ~DEmpty(S) /\ op.n > 0
   /\ S.d.size + op.n <= S.d.alloc
   /\ S.d.size - op.pos > op.n
   /\ op.pos2 > op.pos
